@@ -73,6 +73,19 @@ def matchDyn (pre : Str) (kind : RKind) (post : Str) (suffixed : Bool) (target :
       | none => none
       | some v => if kind.accepts v then some (v, sl) else none
 
+/-- one transition of `_match` seen from the part: what the part consumes of the remaining path
+segments `parts` (`target`, `remaining`, the `suffixed` slash handling) and the converter groups it
+yields. Static parts are dictionary keys: they consume exactly one equal segment. -/
+def step : Part → List Str → Option (List Str × List Str)
+  | _, [] => none
+  | .static c, x :: xs => if c == x then some ([], xs) else none
+  | .dyn pre kind post final suffixed _, x :: xs =>
+    let target := if final then joinWith '/' (x :: xs) else x
+    let remaining := if final then [] else xs
+    match matchDyn pre kind post suffixed target with
+    | some (v, sl) => some ([v], if suffixed && sl then [[]] else remaining)
+    | none => none
+
 /-! ### `_parse_rule` -/
 
 /-- accumulator of `_parse_rule` between two part boundaries -/
@@ -340,13 +353,10 @@ def dfsStatic (q : Req) : List (Str × State) → Str → List Str → List Str 
 def dfsDyn (q : Req) : List (Part × State) → Str → List Str → List Str → Out
   | [], _, _, _ => ⟨.none, [], false⟩
   | (.static _, _) :: t, part, rest, vals => dfsDyn q t part rest vals
-  | (.dyn pre kind post final suffixed _, s) :: t, part, rest, vals =>
-    let target := if final then joinWith '/' (part :: rest) else part
-    let remaining := if final then [] else rest
-    match matchDyn pre kind post suffixed target with
-    | some (v, sl) =>
-      let remaining := if suffixed && sl then [[]] else remaining
-      let o := dfs q s remaining (vals ++ [v])
+  | (.dyn pre kind post final suffixed w, s) :: t, part, rest, vals =>
+    match step (.dyn pre kind post final suffixed w) (part :: rest) with
+    | some (a, remaining) =>
+      let o := dfs q s remaining (vals ++ a)
       match o.res with
       | .none =>
         let o' := dfsDyn q t part rest vals
